@@ -3,6 +3,7 @@ package main
 // Evaluation of contract expressions against a symbolic state.
 
 import (
+	"strconv"
 	"fmt"
 	"go/constant"
 	"go/token"
@@ -37,6 +38,8 @@ type SpecEnv struct {
 	visited    *Term
 	visitedKey types.Type
 	iterStart  *Term
+	// callback contracts: the arguments of the callback call as the executor holds them
+	rawArgs []Val
 }
 
 type specError string
@@ -993,6 +996,36 @@ func (env *SpecEnv) call(e *SExpr) SVal {
 				}
 			}
 			return SVal{T: BoolLit(ok), Typ: types.Typ[types.Bool]}
+		case "arglocal":
+			// (callback contracts) argument i of the callback call points into a local variable of
+			// the function under verification (a copy), not into the heap or a slice
+			i, err := strconv.Atoi(args[0].Val)
+			if err != nil || i < 0 || i >= len(env.rawArgs) {
+				env.fail("arglocal(i): i must be the index of a callback argument")
+			}
+			l, ok := env.rawArgs[i].(*Loc)
+			return SVal{T: BoolLit(ok && l.Kind == rootCell), Typ: types.Typ[types.Bool]}
+		case "derefarg":
+			// (callback contracts) the value argument i of the callback call points to (also for
+			// interior pointers, which have no term of their own)
+			i, err := strconv.Atoi(args[0].Val)
+			if err != nil || i < 0 || i >= len(env.rawArgs) {
+				env.fail("derefarg(i): i must be the index of a callback argument")
+			}
+			switch a := env.rawArgs[i].(type) {
+			case *Loc:
+				if t, ok := fv.load(env.st, a).(*Term); ok {
+					return SVal{T: t, Typ: a.ElTyp}
+				}
+			case *Term:
+				if pt, ok := types.Unalias(fv.curCallbackSig.Params().At(i).Type()).Underlying().(*types.Pointer); ok {
+					l := fv.locOf(a, pt.Elem())
+					if t, ok := fv.load(env.st, l).(*Term); ok {
+						return SVal{T: t, Typ: pt.Elem()}
+					}
+				}
+			}
+			env.fail("derefarg(%d): not a pointer to a value", i)
 		case "infunc":
 			// (call-site conditions) the function making the call is the named one
 			name := args[0].Val
